@@ -248,10 +248,7 @@ func RunInto(o *core.Options, r *core.Report) {
 		maxLen, scriptLen, tripleLen = 3, 5, 3
 	}
 	scripts := enumScripts("NHS", scriptLen)
-	scripts3 := scripts // 3-input adapters: quick uses scripts one call shorter
-	if !o.Thorough() {
-		scripts3 = enumScripts("NHS", scriptLen-1)
-	}
+	scripts3 := enumScripts("NHS", scriptLen-1) // 3-input adapters: scripts one call shorter
 	col := &collector{per: map[string]*adStat{}, r: r, open: map[string]string{}, docs: map[string]string{}}
 	ads := adapters()
 	only := os.Getenv("C23SEQ_ONLY") // development aid: restrict to adapters whose name contains the value
